@@ -12,7 +12,7 @@ IsEvent(k) == l <= Len(Rec) /\ Rec[l].ev = k /\ l' = l + 1
 
 ToSet(s) == {s[i] : i \in DOMAIN s}
 Proj(e) == [schema |-> [i \in DOMAIN e.project.schema |-> ToSet(e.project.schema[i])],
-            ops |-> [i \in DOMAIN e.project.ops |-> ToSet(e.project.ops[i])], commands |-> e.project.commands]
+            ops |-> [i \in DOMAIN e.project.ops |-> ToSet(e.project.ops[i])], commands |-> e.project.commands, gen |-> ToSet(e.project.gen)]
 
 FileOf(e, f) == e.files[CHOOSE i \in DOMAIN e.files : e.files[i].id = f]
 HasFile(e, f) == \E i \in DOMAIN e.files : e.files[i].id = f
@@ -66,7 +66,7 @@ Judge(e) ==
 TRun == /\ IsEvent("CliRun")
         /\ LET its == Judge(Rec[l]) IN \A i \in DOMAIN its : PrintT(<<"ITEM", ToJson(its[i])>>)
         /\ UNCHANGED vars
-Init == l = 1 /\ PInit({[schema |-> <<{}>>, ops |-> <<{}>>, commands |-> <<"check">>]})
+Init == l = 1 /\ PInit({[schema |-> <<{}>>, ops |-> <<{}>>, commands |-> <<"check">>, gen |-> {}]})
 Next == TRun
 Spec == Init /\ [][Next]_<<l, vars>>
 Done == PrintT(<<"DONE", ToJson([consumed |-> TLCGet("stats").diameter - 1])>>)
